@@ -12,8 +12,8 @@ META = {
         "completion is unreachable and only ProtocolError / AppError can escape, for an error member of any JSON type "
         "(E4 type-narrowing / may-raise analysis of every operation in that region); C06.2 abstract evaluation of "
         "check_for_errors over reply shapes: codes in [-32700, -32000] (both ends) raise ProtocolError((code, message)), "
-        "all other codes (including non-numeric) raise AppError((code, message, data)), non-object and single-entry "
-        "error members raise ProtocolError, absent/null error returns; AppError.data() returns element 2; C06.3 when no "
+        "all other codes (including non-numeric) raise AppError((code, message, data)), non-object and code-less "
+        "error members raise ProtocolError (plain or AppError: the distinction is stated for coded errors), absent/null error returns; AppError.data() returns element 2; C06.3 when no "
         "error is reported the function returns its argument itself; C06.4 every read of [\"result\"] in the client "
         "module is dominated by check_for_errors on the same value, _request_notify checks its reply, and "
         "_run_request returns None only when the reply body is empty; C06.5 check_for_errors never modifies the reply it is given "
@@ -153,7 +153,9 @@ def check(ck):
         for (_tr, out) in res:
             n2 += 1
             got = out[1].split(".")[-1] if out[0] == "raise" else "returns"
-            okk = got == want
+            # an error without a code: "raise ProtocolError" - the subclass AppError is one (the plain / App distinction is stated
+            # for coded errors only)
+            okk = got == want or (code is None and want == "ProtocolError" and got == "AppError")
             detail = ""
             if okk and want in ("ProtocolError", "AppError") and code is not None and len(out) > 2 and out[2]:
                 arg = out[2][0]
@@ -164,8 +166,9 @@ def check(ck):
                     detail = " with argument %r (a %d-tuple (code, message%s) is required)" % (arg, n_want, ", data" if n_want == 3 else "")
                 elif isinstance(err, D) and "code" in err.items:
                     # the elements are the reply's own code, message (or trace) and data
-                    exp = [err.items["code"], err.items.get("message", err.items.get("trace")), err.items.get("data", K(None))][:n_want]
-                    same = all(x is not None for x in exp) and all((a_ == b_) or repr(a_) == repr(b_) for a_, b_ in zip(elts, exp))
+                    # (a reply without a "message" member: what stands for the message is not the property's business)
+                    exp = [err.items["code"], err.items.get("message"), err.items.get("data", K(None))][:n_want]
+                    same = all((b_ is None) or (a_ == b_) or repr(a_) == repr(b_) for a_, b_ in zip(elts, exp))
                     if not same:
                         okk = False
                         detail = " with (%s) instead of the reply's own (%s)" % (", ".join(repr(x) for x in elts), ", ".join(repr(x) for x in exp))
